@@ -6,9 +6,10 @@
    Only property theorems here, each closed by [exact] and followed by Print Assumptions.
    Full statements that are false of the faithful model are Definitions [.._full] in the facts
    files, refuted here with their true restriction beside them. *)
+From Coq Require Import Permutation.
 From Coq Require Import List NArith Bool Arith.
 From RPFT Require Import Base.Sexp Base.PyStr Base.Result Gen.Tables Io.Hidden Io.HiddenInventory Io.HiddenFacts
-  Io.HiddenRenderFacts Io.HiddenHistoryFacts Io.HiddenFreshFacts Io.HiddenIdsFacts.
+  Io.HiddenRenderFacts Io.HiddenHistoryFacts Io.HiddenFreshFacts Io.HiddenIdsFacts Io.HiddenOrder Io.HiddenOrderFacts.
 Import ListNotations.
 
 (* 0. the model covers exactly the hidden state the current source has *)
@@ -19,6 +20,25 @@ Print Assumptions C13_inventory_ok.
 Theorem C13_handler_discipline_ok : handler_discipline_okb = true.
 Proof. exact handler_discipline_ok. Qed.
 Print Assumptions C13_handler_discipline_ok.
+
+(* 0'. "regardless of hash randomisation": every set / directory enumeration / id / hash / clock / random source of
+   the current source whose order or value could leave it (iterated, converted to a sequence, handed on) is one of
+   the reviewed ones (Io/HiddenOrder.v: covered_order_exposures); all others are only searched, measured, compared
+   or sorted ... *)
+Theorem C13_order_sources_ok : order_sources_okb = true.
+Proof. exact order_sources_ok. Qed.
+Print Assumptions C13_order_sources_ok.
+
+(* ... which no arrangement of the elements can influence, *)
+Theorem C13_member_uses_order_free : forall a b : list str, Permutation a b ->
+  (forall p, set_search p a = set_search p b) /\ set_len a = set_len b /\ (forall x, set_mem x a = set_mem x b).
+Proof. exact member_uses_order_free. Qed.
+Print Assumptions C13_member_uses_order_free.
+
+(* whereas iterating a set does see the arrangement (why `iter` entries are not accepted unreviewed) *)
+Theorem C13_iterated_set_order_free_refuted : ~ iterated_set_order_free.
+Proof. exact iterated_set_order_dependent. Qed.
+Print Assumptions C13_iterated_set_order_free_refuted.
 
 (* 1. the logging-context stack is balanced after every call sequence, failing calls included *)
 Theorem C13_stack_balanced : forall cs, h_stack (fst (run init cs)) = [].
